@@ -205,7 +205,7 @@ TTask ==
 TFault ==
   /\ Is("fault")
   /\ LET r == R IN
-     /\ st' \in (CASE r.kind = "cutsrc"  -> CutSrc(st, r.e)
+     /\ st' \in (CASE r.kind \in {"cutsrc", "cutsrcs"} -> CutSrc(st, r.e)
                    [] r.kind = "endsrc"  -> EndSrc(st, r.e)
                    [] r.kind = "cutsink" -> CutSink(st, r.e)
                    [] r.kind = "softcut" -> SoftCutSink(st, r.e)
